@@ -3,6 +3,7 @@ package checks
 import (
 	"fmt"
 	"strings"
+	"sync"
 
 	"verifharness/drv"
 	"verifharness/gen"
@@ -23,7 +24,14 @@ var c15Fillers = []struct{ name, text string }{
 	// several ignorable tokens in ONE gap
 	{"two-line-comments", " -- a\n-- b\n"}, {"two-block-comments-glued", "--(a)----(b)--"}, {"block-then-line-comment", " --(a)-- -- b\n"},
 	{"three-comments-and-blanks", "\n--(a)--\t--(b)-- \n -- c\n "},
+	// the documentation defines source whitespace as \s: vertical tab and form feed belong to it in every reading
+	{"vertical-tab", "\v"}, {"form-feed", " \f"},
 }
+
+// White_Space code points beyond ASCII. Whether they separate tokens depends on how \s is read (ASCII only, or
+// Unicode as the lexer's unicode.IsSpace does); either reading is consistent, a mixture is not: they are judged
+// as a group, never one by one.
+var c15UnicodeSpaces = []rune{0x85, 0xA0, 0x1680, 0x2000, 0x2003, 0x2028, 0x205F, 0x3000}
 
 func joinWithGap(ts []gen.Tok, gap int, filler string) string {
 	var sb strings.Builder
@@ -96,6 +104,12 @@ func c15Variants(src string) (base string, vs []c15Variant) {
 			}
 		}
 	}
+	if len(ts) > 2 {
+		g := 1 + (len(base)/7)%(len(ts)-1)
+		for _, cp := range c15UnicodeSpaces {
+			vs = append(vs, c15Variant{joinWithGap(ts, g, string(cp)), fmt.Sprintf("uspace:U+%04X", cp), tokClass(ts[g-1]) + " | " + tokClass(ts[g])})
+		}
+	}
 	// leading / trailing layout
 	vs = append(vs, c15Variant{"\n\t " + base + " \n", "gap:outer-whitespace", "outer"})
 	vs = append(vs, c15Variant{"-- c\n" + base + " --(c)--", "gap:outer-comments", "outer"})
@@ -126,14 +140,18 @@ func c15Variants(src string) (base string, vs []c15Variant) {
 
 func C15(r *drv.Run) {
 	r.BuildWorker()
+	var uspaceMu sync.Mutex
+	var uspaceWS, uspaceNot *c15Variant
+	var uspaceCase wire.Case
 	ngen := 120
 	if !quick(r) {
 		ngen = 4000
 	}
-	r.Rule = "valid programs as token lists (hand corpus covering every production incl. process statements/expressions, amount clauses, named loops, ranges, caseless, regex literals; repository examples; generated programs) x EVERY gap between adjacent tokens x {newline, tab run, CRLF, line comment, block comment glued, block comment with blanks, multi-line block comment, two line comments, two glued block comments, block then line comment, three comments mixed with blanks} and - where the neighbours are not both words - removal of the whitespace; every keyword individually and all together in UPPER and MiXeD case; leading/trailing layout. Oracle (metamorphic): variant accepted iff the single-blank original is, reflect.DeepEqual + canonical-dump equality of the syntax trees (hook H6), identical Run results on 3 texts. Non-trivial = every distinct variant whose three verdicts agreed; distinct by variant source."
+	r.Rule = "valid programs as token lists (hand corpus covering every production incl. process statements/expressions, amount clauses, named loops, ranges, caseless, regex literals; repository examples; generated programs) x EVERY gap between adjacent tokens x {newline, tab run, CRLF, line comment, block comment glued, block comment with blanks, multi-line block comment, two line comments, two glued block comments, block then line comment, three comments mixed with blanks, vertical tab, form feed} and - where the neighbours are not both words - removal of the whitespace; every keyword individually and all together in UPPER and MiXeD case; leading/trailing layout; eight White_Space code points beyond ASCII (U+0085, U+00A0, U+1680, U+2000, U+2003, U+2028, U+205F, U+3000) in one gap per program, judged as a group: all of them separate tokens or none does. Oracle (metamorphic): variant accepted iff the single-blank original is, reflect.DeepEqual + canonical-dump equality of the syntax trees (hook H6), identical Run results on 3 texts (a text on which the original alone needs more than 4 000 VM steps is dropped for its variants, which run under a budget of 30 000). Non-trivial = every distinct variant whose three verdicts agreed; distinct by variant source."
 	r.Assumptions = []string{
 		"a block comment glued directly after '-' is not a layout change (it lexes as a different token sequence) and is not generated",
 		"the harness tokenizer's token boundaries are those of the documented lexing rules; it is only applied to programs known to be valid",
+		"the documentation gives source whitespace as \\s without saying whether that is ASCII or Unicode: for White_Space code points beyond ASCII only consistency is demanded (all separate tokens, or none); one of them behaving unlike the others is the violation",
 	}
 	bases := append([]string{}, gen.Corpus...)
 	bases = append(bases, gen.ExampleFiles(drv.RepoRoot)...)
@@ -147,29 +165,59 @@ func C15(r *drv.Run) {
 			bases = append(bases, gen.RenderProgram(gen.AnyProgram(rng, i)))
 		}
 	}
-	texts := [][]byte{[]byte("7abcdef"), []byte("aab ba\nAB 12,3"), []byte("hello (a(b)) 'q' x13")}
+	allTexts := [][]byte{[]byte("7abcdef"), []byte("aab ba\nAB 12,3"), []byte("hello (a(b)) 'q' x13")}
 	type unit struct {
+		base  string
+		vs    []c15Variant
+		texts [][]byte
+	}
+	// phase 0: the single-blank original alone. A text on which it needs more than the step budget is dropped
+	// for all its variants (hundreds of them would each spend the same steps again).
+	type probe struct {
 		base string
 		vs   []c15Variant
+		keep [][]byte
 	}
-	var units []unit
+	var probes []*probe
 	for _, b := range bases {
 		if len(b) > 1500 {
 			continue
 		}
 		base, vs := c15Variants(b)
-		for lo := 0; lo < len(vs); lo += 30 {
-			units = append(units, unit{base, vs[lo:min(lo+30, len(vs))]})
+		probes = append(probes, &probe{base: base, vs: vs})
+	}
+	r.Exec(len(probes), drv.ExecOpts{Batch: 40}, func(i int) *drv.Item {
+		pb := probes[i]
+		c := wire.Case{Op: "run", Src: []byte(pb.base), Texts: allTexts, StepBudget: 4000}
+		return &drv.Item{Case: c, Check: func(res *wire.Result) {
+			if res.Died || res.Panic != nil || res.Compile == nil || !res.Compile.OK {
+				pb.keep = allTexts // the variants' case reports what is wrong, with the comparison
+				return
+			}
+			for ti := range allTexts {
+				if ti < len(res.Runs) && res.Runs[ti].Budget == "" {
+					pb.keep = append(pb.keep, allTexts[ti])
+				} else {
+					r.Count("texts_dropped_original_over_budget", 1)
+				}
+			}
+		}}
+	})
+	var units []unit
+	for _, pb := range probes {
+		for lo := 0; lo < len(pb.vs); lo += 30 {
+			units = append(units, unit{pb.base, pb.vs[lo:min(lo+30, len(pb.vs))], pb.keep})
 		}
 	}
 	r.Extra["base_programs"] = len(bases)
 	r.Exec(len(units), drv.ExecOpts{Batch: 12}, func(i int) *drv.Item {
 		u := units[i]
+		texts := u.texts
 		srcs := [][]byte{[]byte(u.base)}
 		for _, v := range u.vs {
 			srcs = append(srcs, []byte(v.src))
 		}
-		c := wire.Case{Op: "astcmp", Srcs: srcs, Texts: texts, StepBudget: 200000, WantAST: false}
+		c := wire.Case{Op: "astcmp", Srcs: srcs, Texts: texts, StepBudget: 30000, WantAST: false}
 		return &drv.Item{Case: c, Check: func(res *wire.Result) {
 			if crashOrGuard(r, res, &c, u.base, false) {
 				return
@@ -188,6 +236,34 @@ func C15(r *drv.Run) {
 				r.Eval(1)
 				if cr.Panic != nil {
 					r.Violate(&drv.Violation{Sig: "compile-panic:" + cr.Panic.Frame, Panic: cr.Panic.Msg, Frame: cr.Panic.Frame, Src: v.src, Case: &c})
+					continue
+				}
+				if strings.HasPrefix(v.kind, "uspace:") {
+					if !b.OK {
+						continue
+					}
+					asWS := cr.OK && res.ASTEqual[k+1]
+					for ti := range texts {
+						a := &res.Runs[ti]
+						bb := &res.Runs[(k+1)*len(texts)+ti]
+						if asWS && ((a.Panic == nil) != (bb.Panic == nil) || a.Budget != bb.Budget || matchesJSON(a.Matches) != matchesJSON(bb.Matches)) {
+							asWS = false
+						}
+					}
+					uspaceMu.Lock()
+					if asWS {
+						r.Count("uspace_separates_tokens_"+v.kind[7:], 1)
+						if uspaceWS == nil {
+							uspaceWS = &c15Variant{v.src, v.kind, u.base}
+						}
+					} else {
+						r.Count("uspace_does_not_separate_"+v.kind[7:], 1)
+						if uspaceNot == nil {
+							uspaceNot = &c15Variant{v.src, v.kind, u.base}
+							uspaceCase = c
+						}
+					}
+					uspaceMu.Unlock()
 					continue
 				}
 				if cr.OK != b.OK {
@@ -228,6 +304,10 @@ func C15(r *drv.Run) {
 			}
 		}}
 	})
+	if uspaceWS != nil && uspaceNot != nil {
+		r.Violate(&drv.Violation{Sig: "unicode-white-space-treated-inconsistently", Src: uspaceNot.src, Case: &uspaceCase,
+			Detail: map[string]any{"separates_tokens": uspaceWS.kind[7:], "example_accepted": oneLineN(uspaceWS.src, 200), "does_not_separate": uspaceNot.kind[7:], "original": uspaceNot.gap}})
+	}
 	if r.NViolations() == 0 {
 		for _, f := range c15Fillers {
 			if r.Counter("ok_gap:"+f.name) == 0 {
